@@ -10,7 +10,7 @@ from vf.core import Ctx
 
 def scenarios(ctx: Ctx) -> list:
     rng = random.Random(ctx.seed * 7919 + 6)
-    n = ctx.pick(240, 4000)
+    n = ctx.pick(300, 12000)
     out = []
     for k in range(n):
         nd = rng.choice([5, 8, 12, 20]) if not ctx.thorough else rng.choice([5, 12, 30])
